@@ -171,9 +171,13 @@ impl<T: IndexTape> ApplyRule for T {}
 /**************************************/
 
 fn apply_plus(count: Count, diff: Diff, times: Count) -> Option<Count> {
-    let diff: Count = diff.unsigned_abs().into();
+    let absdiff: Count = diff.unsigned_abs().into();
 
-    let mult = diff.checked_mul(times)?;
+    let mult = absdiff.checked_mul(times)?;
 
-    Some(count + mult)
+    if diff < 0 {
+        count.checked_sub(mult)
+    } else {
+        count.checked_add(mult)
+    }
 }
